@@ -389,6 +389,49 @@ def _loc_same(a, b):
                enum_eq(a.strand, b.strand) if hasattr(a.strand, "idx") else a.strand is b.strand)
 
 
+class DigestOrderIndependence(Case):
+    """util.hashing._encode_object_for_digest (what digest_object feeds to md5): the encoding of a qualifier dictionary
+    is a function of its CONTENT - the same for every insertion order of the keys (keys that differ only in case
+    included) and every order of the value sets; complete domain of small dictionaries over such keys."""
+    props = ("C08",)
+    name = "digest encoding of qualifier dictionaries[all insertion orders, keys differing only in case]"
+    func = "util.hashing._encode_object_for_digest"
+    module = "util.hashing"
+    call = "list(_encode_object_for_digest('x', {k: set(v) for k, v in pairs}, q={k: set(v) for k, v in pairs}))"
+    ensures = {"function-of-content-only": lambda i, r: list(r) == _spec_encoding(i.pairs)}
+
+    def inputs(self, S):
+        pairs = [(k, list(v)) for k, v in S.const("pairs")]
+        return NS(pairs=pairs, _encode_object_for_digest=S.fn("util.hashing._encode_object_for_digest"))
+
+    def ground(self):
+        keys = ["Note", "note", "NOTE", "a", "B"]
+        for n in (1, 2, 3):
+            for combo in itertools.permutations(keys, n):
+                yield {"pairs": [[k, ["y", "X"] if j == 0 else ["v"]] for j, k in enumerate(combo)]}
+
+
+def _spec_encoding(pairs):
+    """specification: the positional pieces in order, a dictionary as key / rendered value in plain lexicographic key
+    order (case-SENSITIVE: 'B' < 'NOTE' < 'Note' < 'a' < 'note'), a set as the str() of its lexicographically sorted
+    members; keyword arguments likewise, by keyword."""
+    d = {k: set(v) for k, v in pairs}
+
+    def enc_dict(dd):
+        out = []
+        for k in sorted(dd):
+            out.append(str(k))
+            v = dd[k]
+            if isinstance(v, dict):
+                out += enc_dict(v)
+            elif isinstance(v, (set, frozenset)):
+                out.append(str(sorted(str(x) for x in v)))
+            else:
+                out.append(str(v))
+        return out
+    return ["x"] + enc_dict(d) + ["q"] + enc_dict(d)
+
+
 class GuidSensitivity(Case):
     """'changing a coordinate ... changes the identifier' on the real md5-based digest (the verifier models the digest
     as a function of its ARGUMENT TUPLE, so it cannot see that digest_object feeds the pieces to md5 without any
@@ -541,6 +584,6 @@ class NativeRoundTrips(Case):
 
 
 CASES = [TranscriptRoundTrip(1, False), TranscriptRoundTrip(2, False), TranscriptRoundTrip(1, True), VariantRoundTrip(),
-         NativeRoundTrips(), CdsGuidContent(), ParentToDict(), GuidSensitivity()]
+         NativeRoundTrips(), CdsGuidContent(), ParentToDict(), GuidSensitivity(), DigestOrderIndependence()]
 CASES += [CollectionParentRoundTrip(k) for k in ("untyped id only", "typed chromosome, no sequence",
                                                  "whole chromosome with sequence", "sequence chunk of either strand")]
